@@ -87,22 +87,46 @@ func (c *ctx) genWG() (string, []wgFunc, []wgVar) {
 	for _, v := range vars {
 		fmt.Fprintf(&b, "var<workgroup> %s: %s;\n", v.name, v.ty)
 	}
+	// every read / call is a statement of its own, placed in a statement context that runs it exactly once
+	// (if, switch case, loop body, `continuing`, for, nested block) — the back ends' used-global walkers have to
+	// descend into each of them to find the workgroup variables an entry point can reach
+	nk := 0
+	once := func(st string) string {
+		nk++
+		k := fmt.Sprintf("k%d", nk)
+		switch c.rng.Intn(9) {
+		case 0:
+			return "  if inp[0] == inp[0] {\n  " + st + "  }\n"
+		case 1:
+			return "  switch acc & 0u {\n    case 5u: { }\n    default: {\n  " + st + "    }\n  }\n"
+		case 2:
+			return "  loop {\n  " + st + "    break;\n  }\n"
+		case 3:
+			return "  var " + k + " = 0u;\n  loop {\n    if " + k + " >= 1u { break; }\n    continuing {\n      " + k + " = " + k + " + 1u;\n  " + st + "    }\n  }\n"
+		case 4:
+			return "  for (var " + k + " = 0u; " + k + " < 1u; " + k + " = " + k + " + 1u) {\n  " + st + "  }\n"
+		case 5:
+			return "  {\n    {\n  " + st + "    }\n  }\n"
+		}
+		return st
+	}
 	body := func(f wgFunc) string {
-		parts := []string{fmt.Sprintf("%du", f.konst)}
+		var sb strings.Builder
+		fmt.Fprintf(&sb, "  var acc = %du;\n", f.konst)
 		for _, r := range f.reads {
-			parts = append(parts, vars[r].read)
+			sb.WriteString(once("  acc = acc + " + vars[r].read + ";\n"))
 		}
 		for _, cl := range f.calls {
-			parts = append(parts, helpers[cl].name+"()")
+			sb.WriteString(once("  acc = acc + " + helpers[cl].name + "();\n"))
 		}
-		return strings.Join(parts, " + ")
+		return sb.String()
 	}
 	// helpers in dependency order (WGSL allows any order; naga's arena order follows the text)
 	for _, h := range helpers {
-		fmt.Fprintf(&b, "fn %s() -> u32 {\n  return %s;\n}\n", h.name, body(h))
+		fmt.Fprintf(&b, "fn %s() -> u32 {\n%s  return acc;\n}\n", h.name, body(h))
 	}
 	for i, e := range entries {
-		fmt.Fprintf(&b, "@compute @workgroup_size(1)\nfn %s() {\n  outp[%du] = %s;\n}\n", e.name, i, body(e))
+		fmt.Fprintf(&b, "@compute @workgroup_size(1)\nfn %s() {\n%s  outp[%du] = acc;\n}\n", e.name, body(e), i)
 	}
 	all := append(append([]wgFunc{}, helpers...), entries...)
 	return b.String(), all, vars
